@@ -1,0 +1,9 @@
+//go:build !verif
+
+package leveldbstorage
+
+import "github.com/syndtr/goleveldb/leveldb"
+
+// verifFaultPoint is the write boundary hook of the verification harness;
+// without the "verif" build tag it does nothing.
+func verifFaultPoint(*Storage, string, []byte, *leveldb.Batch) error { return nil }
